@@ -263,6 +263,7 @@ def run(prop, plan, tier, seed, replay, wd, known, t0):
     # ---------------- verdicts
     evaluations = 0
     skipped = 0
+    undecided = collections.Counter()
     distinct = set()
     samples = []
     own, other, tool = [], [], []
@@ -270,6 +271,8 @@ def run(prop, plan, tier, seed, replay, wd, known, t0):
         lines = open(f).read().split("\n")
         evaluations += res["stats"]["checked"]
         skipped += res["stats"]["skipped"]
+        for u in res.get("undecided", []):
+            undecided[u["what"]] += 1
         sk = set(res.get("skipped_lines", []))
         rs = operand_resolver()
         for idx, ln in enumerate(lines):
@@ -338,6 +341,7 @@ def run(prop, plan, tier, seed, replay, wd, known, t0):
         "transitions": trans,
         "traces_validated_against_impl": len(results),
         "skipped_out_of_domain": skipped,
+        "undecided": dict(undecided),
         "models": mc_results,
         "exhaustive": False,
         "deviations_own": len(own),
